@@ -89,11 +89,11 @@ type interpreter struct {
 	goroutines         int32                  // atomically updated
 	ex                 *Exec                  // symbolic path executor
 	shared             *Shared
-	panicStack         []stackEntry           // call stack captured where the current panic was raised
-	cur                *frame                 // innermost active frame (sequential mode)
-	sched              *scheduler             // concurrent mode, nil otherwise
+	panicStack         []stackEntry // call stack captured where the current panic was raised
+	cur                *frame       // innermost active frame (sequential mode)
+	sched              *scheduler   // concurrent mode, nil otherwise
 	depth              int
-	noExt              int
+	bypass             map[string]int
 	initMode           bool
 	initPkg            *ssa.Package
 	sideT              *sideTables
@@ -553,4 +553,3 @@ func executePhis(fr *frame) []ssa.Instruction {
 	}
 	return nonPhis
 }
-
